@@ -414,6 +414,22 @@ func (c *Constant) Initialization() Code {
 	return c.init
 }
 
+// DeclaredType returns the type to write in the declaration of the constant, with a leading
+// space, or an empty string. Constants are declared without a type; but when the type is a
+// typedef of another package and the value does not mention that package (scalars, binary),
+// the type is the only use of the import and must be written.
+func (c *Constant) DeclaredType() string {
+	tn := c.typeName.String()
+	i := strings.Index(tn, ".")
+	if i <= 0 || strings.ContainsAny(tn[:i], "[]*") {
+		return ""
+	}
+	if strings.Contains(c.init.String(), tn[:i+1]) {
+		return ""
+	}
+	return " " + tn
+}
+
 // Typedef is a wrapper for the parser.Typedef.
 type Typedef struct {
 	*parser.Typedef
